@@ -185,8 +185,16 @@ def gen_selector(rng):
 CONTENT = ["<i>x</i>", "A&B", "<", "1>2", "plain", "<!--c-->", "\"q\"", ""]
 def gen_chunk(rng):
     return rng.choice("ht") + hx(rng.choice(CONTENT))
+def _fmt_combo(rng):
+    t = rng.choice(["af:%s,rm", "af:%s,rp:%s", "bf:%s,af:%s,rm", "sf:%s,rm", "af:%s,rk", "bf:%s,rp:%s", "af:%s,si:%s", "pp:%s,ap:%s,rk"])
+    while "%s" in t: t = t.replace("%s", gen_chunk(rng), 1)
+    return t
 def gen_el_ops(rng, observe=False):
     if observe: return ""
+    if rng.randrange(12) == 0:
+        # insert-then-remove combinations (content placed outside an element must survive its removal, also for void elements)
+        return rng.choice(["af:%s,rm", "af:%s,rp:%s", "bf:%s,af:%s,rm", "sf:%s,rm", "af:%s,rk", "bf:%s,rp:%s", "af:%s,si:%s", "pp:%s,ap:%s,rk"]).replace("%s", "{}").format(*[gen_chunk(rng) for _ in range(3)][: 3]) if False else \
+               _fmt_combo(rng)
     ops = []
     for _ in range(rng.choice([1, 1, 2, 3])):
         c = rng.randrange(20)
@@ -383,7 +391,8 @@ def gen_enc(rng, n, prefix="e"):
         data = b"".join(parts)
         ins = rng.choice(["-", "-", hx("<i>\u00e9\u4e2d\u044f\U0001f600</i>"), hx("caf\u00e9"), hx("\u20ac&")])
         ch = chunkings(rng, data)
-        yield "L3 %s%d nomodel=1 enc=%d meta=%d ins=%s ops=%s" % (prefix, i, idx, meta, ins, ",".join(["W" + c.hex() for c in ch] + ["E"]))
+        endins = rng.choice(["-", "-", hx("\u00e9bauche"), hx("\u044f\u4e2d" * 40), hx("end<!--\u00e9-->"), hx("ascii end")])
+        yield "L3 %s%d nomodel=1 enc=%d meta=%d ins=%s endins=%s ops=%s" % (prefix, i, idx, meta, ins, endins, ",".join(["W" + c.hex() for c in ch] + ["E"]))
 
 def gen_td(rng, n, prefix="t"):
     """text-only UTF-8 documents (no '<'): valid multi-byte characters, malformed and truncated sequences, long runs, every kind of split"""
